@@ -120,9 +120,7 @@ def givens_frame(n, k, base="g", sign_fork=True):
     Q = Q.T  # columns
     out = Q[:, :k].copy()
     if k == n and sign_fork:
-        b = z3.Bool(f"{base}_sgn!{sym.CTX.nfresh_path}")
-        sym.CTX.nfresh_path += 1
-        s = 1 if sym.CTX.branch(b) else -1
+        s = sym.CTX.unit_var(f"{base}_sgn")  # reflection: symbolic sign, s*s == 1
         out[:, k - 1] = out[:, k - 1] * s
     return out.view(SArr)
 
